@@ -1,7 +1,12 @@
 /- Driver handler owned by property C04: `c04 <args…>` requests.
 
    `c04 get <hex>` — `<hex>` is the hex encoding of the s-expression
-     (get (env (rt SCOPE #ident ID)…) (fns (fn #key (T…) T) | (fm #key (T…) S S) | (helper #key) …) #name (rust (R…) R))
+     (get (env (rt SCOPE #ident ID)…) (fns ITEM…) #name (rust (R…) R))
+   with ITEM ::= (fn #key (T…) T) | (fm #key (T…) S S) | (test #modpath #ident) | (const #modpath #ident T)
+               | (type #modpath #ident) | (import #modpath #ident) | (helper #key)
+   — the declarations of the script and the generated helpers; the table `get_function`
+   consults is what the modelled compiler pipeline (`RotoV.GateTab.Pipeline.table` over the
+   generated `Gen.GateTab.pipeline`) makes of them —
    where `fm` is a filtermap given by what its body does with the accept and
    the reject side, S ::= unused | T (the payload type; `unit` for a bare
    `accept`), whose signature the model derives (`filtermapSignature`),
@@ -20,10 +25,12 @@
 -/
 import Driver.Util
 import RotoV.Model.Gate
+import RotoV.Model.GateTab
 import RotoV.Generated.Gate
+import RotoV.Generated.GateTab
 
 namespace Driver.C04
-open RotoV.Gate
+open RotoV.Gate RotoV.GateTab
 
 inductive Sexp
   | atom (s : String)
@@ -106,16 +113,47 @@ def sideOf : Sexp → Option (Option RotoTy)
   | .atom "unused" => some none
   | t => (rotoTy t).map some
 
-def fnsOf (xs : List Sexp) : Option Functions :=
-  xs.mapM (fun
-    | .list [.atom "fn", .atom k, .list ps, ret] => do
-      pure (← identOf k, some ⟨← ps.mapM rotoTy, ← rotoTy ret⟩)
-    | .list [.atom "fm", .atom k, .list ps, a, r] => do
-      -- the signature `filter_map_type` + `force_filtermap_types` leave behind
-      let sig ← filtermapSignature (ident "Verdict") (← ps.mapM rotoTy) (← sideOf a) (← sideOf r)
-      pure (← identOf k, some sig)
-    | .list [.atom "helper", .atom k] => do pure (← identOf k, none)
-    | _ => none)
+/-- One item of the `(fns …)` list: a declaration of the script, or a generated helper.
+    `(fn #key (T…) T)`, `(fm #key (T…) S S)`: a function / filtermap given by its whole key;
+    `(test #modpath #ident)`, `(const #modpath #ident T)`, `(type #modpath #ident)`,
+    `(import #modpath #ident)`: a declaration by module path and identifier — the key it
+    is known under, and whether it enters the table at all, is the model's business
+    (`Pipeline.entry` over the stages as the source has them);
+    `(helper #key)`: a generated helper, split into the prefix the source knows and the rest. -/
+def itemOf : Sexp → Option (Sum Decl (Ident × Ident))
+  | .list [.atom "fn", .atom k, .list ps, ret] => do
+    pure (.inl ⟨.function, [], ← identOf k, ⟨← ps.mapM rotoTy, ← rotoTy ret⟩⟩)
+  | .list [.atom "fm", .atom k, .list ps, a, r] => do
+    -- the signature `filter_map_type` + `force_filtermap_types` leave behind
+    let sig ← filtermapSignature (ident "Verdict") (← ps.mapM rotoTy) (← sideOf a) (← sideOf r)
+    pure (.inl ⟨.filterMap, [], ← identOf k, sig⟩)
+  | .list [.atom "test", .atom m, .atom i] => do
+    pure (.inl ⟨.test, ← identOf m, ← identOf i, testSignature (ident "Verdict")⟩)
+  | .list [.atom "const", .atom m, .atom i, t] => do
+    pure (.inl ⟨.const, ← identOf m, ← identOf i, ⟨[], ← rotoTy t⟩⟩)
+  | .list [.atom "type", .atom m, .atom i] => do
+    pure (.inl ⟨.record, ← identOf m, ← identOf i, ⟨[], .unit⟩⟩)
+  | .list [.atom "import", .atom m, .atom i] => do
+    pure (.inl ⟨.import, ← identOf m, ← identOf i, ⟨[], .unit⟩⟩)
+  | .list [.atom "helper", .atom k] => do
+    let k ← identOf k
+    let known := RotoV.Gen.GateTab.pipeline.helperItems.map (·.1)
+    match known.find? (fun p => p.isPrefixOf k) with
+    | some p => pure (.inr (p, k.drop p.length))
+    | none => pure (.inr ([], k))
+  | _ => none
+
+/-- the table the compiler builds for the listed items (`Pipeline.table`) -/
+def fnsOf (xs : List Sexp) : Option Functions := do
+  let items ← xs.mapM itemOf
+  let decls := items.filterMap (fun | .inl d => some d | .inr _ => none)
+  let helpers := items.filterMap (fun | .inr h => some h | .inl _ => none)
+  pure (RotoV.Gen.GateTab.pipeline.table decls helpers)
+
+def hexOf (i : Ident) : String :=
+  String.join ((Ident.toString i).toUTF8.toList.map (fun b =>
+    let d := fun (n : Nat) => Char.ofNat (if n < 10 then 48 + n else 87 + n)
+    String.ofList [d (b.toNat / 16), d (b.toNat % 16)]))
 
 def showGet : GetRes → String
   | .ok => "ok"
@@ -150,9 +188,22 @@ def handleGet (hex : String) : Option String := do
     pure s!"{showGet model} {if spec then "spec-ok" else "spec-no"}"
   | _ => none
 
+/-- `c04 table <hex of (fns …)>`: the modelled table, `#key+` (entry with a signature) /
+    `#key-` (entry without), in table order -/
+def handleTable (hex : String) : Option String := do
+  let bytes ← unhex hex
+  let str ← String.fromUTF8? (ByteArray.mk bytes.toArray)
+  let (sx, _) ← parseOne (tokens str)
+  match sx with
+  | .list (.atom "fns" :: fns) =>
+    let t ← fnsOf fns
+    pure (" ".intercalate (t.map (fun e => s!"#{hexOf e.1}{if e.2.isSome then "+" else "-"}")))
+  | _ => none
+
 def handle (args : List String) : String :=
   match args with
   | ["get", hex] => (handleGet hex).getD "bad-op"
+  | ["table", hex] => (handleTable hex).getD "bad-op"
   | ["tables"] =>
     -- the generated tables, for the evidence file
     let names := RotoV.Gen.Gate.leafNames.map (fun p => Ident.toString p.2)
